@@ -72,8 +72,8 @@ kept as `docs/DESIGN-round0.md`; where the two differ, this one is right.
 **Status.** All 20 properties (C01-C20) are claimed; `not_applicable` is empty. Every property has
 a TLA+ specification checked by TLC, a binding to the real code (replay of TLC-generated
 behaviours; for C19 and C16 also TLC validation of traces recorded from the real code), a quick and a thorough tier, evidence,
-and at least four seeded property-breaking changes produced by independent sub-agents (97 in all): 91
-are caught, the six of the last round that are not are listed as such in §9 with what the model lacks
+and at least four seeded property-breaking changes produced by independent sub-agents (%d in all): %d
+are caught, the %d of the last round that are not are listed as such in §9 with what the model lacks
 (§9 also says which were first missed and what was strengthened). While building, %d genuine
 defects of the pinned tree were repaired by small `fix:` commits in `/repo` and %d root causes are
 recorded as known findings (§7).
@@ -82,7 +82,10 @@ recorded as known findings (§7).
 §4 shared modules; §5 per property; §6 summary table; §7 defects (fixes and findings); §8 false
 alarms met and what was done; §9 seeded changes and which check catches which; §10 what is not
 covered; §11 cost; §12 hooks; Appendix: practical notes.
-""" % (sum(len(v) for v in fixed.values()), sum(len(v) for v in kf.values())))
+""" % (sum(len(v) for v in seeded.values()),
+       sum(1 for v in seeded.values() for (n, m) in v if not m['checks']['detected_by'].startswith('NOT CAUGHT')),
+       sum(1 for v in seeded.values() for (n, m) in v if m['checks']['detected_by'].startswith('NOT CAUGHT')),
+       sum(len(v) for v in fixed.values()), sum(len(v) for v in kf.values())))
 
 w("""
 ---------------------------------------------------------------------------------------------------
@@ -332,8 +335,8 @@ unedited suite green, and had to deliver a demonstration that fails with the cha
 without. I confirmed each in a scratch worktree (`tools/keep_mutant.sh`: patch applies, `go build`,
 demo passes without / fails with) and ran the checks with `git -C /repo apply` ... `git -C /repo
 checkout -- .`. None is committed to `/repo`. "First MISSED" marks the changes my checks did not
-catch when they were delivered, with what was strengthened. "NOT CAUGHT" marks the six changes of
-the last round (C06-6, C07-5, C07-6, C10-5, C10-6, C12-5) that were delivered in the last hour and are
+catch when they were delivered, with what was strengthened. "NOT CAUGHT" marks the changes of
+the last round (C06-6, C07-5, C07-6, C10-5) that are
 still missed: each entry says which dimension the specification lacks; they are the next work items.\n""")
 w("| change | what it breaks | detected by |\n|---|---|---|")
 for pid in sorted(seeded):
